@@ -253,7 +253,8 @@ def gen_program(r):
     names = [gen_name(r) or 'n', r.choice(['plain', 'with space', 'q"uote', 'back\\slash', 'é', 'a&b', '中', 'x/y'])]
     enc = [mutf7.encode(n) for n in names]
     subj = r.choice([b'hello', b'two words', b'q"x', b'', b'caf\xc3\xa9'.decode('utf-8').encode('ascii', 'ignore') or b'cafe'])
-    msg = b'Subject: hello two words q"x\r\n\r\nbody\r\n'
+    # now and then longer than any limit that applies to ordinary string arguments (4096), but not to a message
+    msg = b'Subject: hello two words q"x\r\n\r\nbody\r\n' + (b'0123456789abcdef' * r.choice([300, 1300]) + b'\r\n' if r.random() < 0.4 else b'')
     prog = [
         [('w', b'LOGIN'), ('s', b'u', 'astring'), ('s', b'p w"x', 'astring')],
         [('w', b'CREATE'), ('s', enc[0], 'astring')],
